@@ -158,6 +158,7 @@ Lemma h_stmt_flags : forall w h s e n s1, h_stmt fault w h s = (e, n, s1) -> s_f
 Proof.
   intros w h s e n s1 H. unfold h_stmt, issue in H.
   destruct h; [inversion H; reflexivity|].
+  destruct (s_dead s); [inversion H; reflexivity|].
   destruct (s_tx s); [|inversion H; reflexivity].
   destruct (fault _); [inversion H; reflexivity|].
   destruct w; inversion H; reflexivity.
@@ -167,6 +168,7 @@ Lemma exec_sp_flags : forall b n h s d s1, exec_sp E fault b n h s = (d, s1) -> 
 Proof.
   intros b n h s d s1 H. unfold exec_sp, issue in H.
   destruct h; [inversion H; reflexivity|].
+  destruct (s_dead s); [inversion H; reflexivity|].
   destruct (s_tx s); [|inversion H; reflexivity].
   destruct (fault _); [inversion H; reflexivity|].
   destruct b; [inversion H; reflexivity|].
@@ -188,9 +190,9 @@ Definition body_mono (body : option err -> st -> res * list obs * option err * s
   forall h s r l h' s', body h s = (r, l, h', s') -> flags_le (s_fl s) (s_fl s').
 
 Lemma nested_flags : forall body, body_mono body ->
-  forall h s r o h' s', nested E C fault body h s = (r, o, h', s') -> flags_le (s_fl s) (s_fl s').
+  forall h s r o h' s', nested0 E C fault body h s = (r, o, h', s') -> flags_le (s_fl s) (s_fl s').
 Proof.
-  intros body HB h s r o h' s' H. unfold nested in H.
+  intros body HB h s r o h' s' H. unfold nested0 in H.
   destruct (c_nonest C).
   - destruct (body h s) as [[[r0 l0] h0] s0] eqn:Eb. inversion H; subst. eapply HB; exact Eb.
   - destruct (h_sp E C fault true (NGen (s_gen s)) h (next_gen s)) as [h1 s1] eqn:Es.
@@ -210,10 +212,19 @@ Proof.
       destruct (fault _); [|apply flags_le_refl]. repeat split; cbn; auto.
 Qed.
 
+Lemma nested_cx_flags : forall cx body, body_mono body ->
+  forall h s r o h' s', nested E C fault cx body h s = (r, o, h', s') -> flags_le (s_fl s) (s_fl s').
+Proof.
+  intros cx body HB h s r o h' s' H. unfold nested in H. destruct cx.
+  - destruct (nested0 E C fault body h (set_dead s false)) as [[[r0 o0] h0] s0] eqn:En.
+    apply (nested_flags _ HB) in En. inversion H; subst. exact En.
+  - apply (nested_flags _ HB) in H. exact H.
+Qed.
+
 Lemma run_body_flags : forall p, body_mono (run_body E C fault p).
 Proof.
-  induction p as [o | m chk k IHk | chk k IHk | b IHb chk rcv k IHk | n k IHk | n k IHk];
-    intros h s r l h' s' H; cbn [run_body] in H.
+  induction p as [o | m chk k IHk | chk k IHk | b IHb chk rcv cx k IHk | n k IHk | n k IHk | k IHk];
+    intros h s r l h' s' H; cbn [run_body] in H; [| | | | | |apply IHk in H; exact H].
   - destruct o; inversion H; subst; apply flags_le_refl.
   - destruct (h_stmt fault (Some m) h s) as [[e n0] s1] eqn:Es. apply h_stmt_flags in Es.
     destruct e as [e|]; [destruct chk|].
@@ -229,8 +240,8 @@ Proof.
       inversion H; subst. rewrite <- Es; exact Ek.
     + destruct (run_body E C fault k h s1) as [[[r0 l0] h0] s0] eqn:Ek. apply IHk in Ek.
       inversion H; subst. rewrite <- Es; exact Ek.
-  - destruct (nested E C fault (run_body E C fault b) h s) as [[[r0 o0] h1] s1] eqn:En.
-    apply (nested_flags _ IHb) in En.
+  - destruct (nested E C fault cx (run_body E C fault b) h s) as [[[r0 o0] h1] s1] eqn:En.
+    apply (nested_cx_flags _ _ IHb) in En.
     destruct r0.
     + destruct (run_body E C fault k h1 s1) as [[[r1 l1] h2] s2] eqn:Ek. apply IHk in Ek.
       inversion H; subst. eapply flags_le_trans; eassumption.
